@@ -90,7 +90,16 @@ class NewtonRaphsonGeometry(StandardGeometry, ABC):
             if np.max(np.abs(dz)) < self.tol:
                 break
         position = np.column_stack((rays.x, rays.y, rays.z))
-        return np.linalg.norm(intersections - position, axis=1)
+        t = np.linalg.norm(intersections - position, axis=1)
+
+        # rays without a valid intersection (iteration not converged, or
+        # intersection behind the ray) are set to NaN, as for other geometries
+        z_surface = self.sag(intersections[:, 0], intersections[:, 1])
+        forward = np.sum((intersections - position) * ray_directions, axis=1)
+        with np.errstate(invalid='ignore'):
+            converged = np.abs(intersections[:, 2] - z_surface) < self.tol
+            t[~converged | (forward < 0)] = np.nan
+        return t
 
     def _intersection_sphere(self, rays):
         """
